@@ -93,10 +93,16 @@ Lemma setSize_ok s n : WInv s -> 0 <= n <= capacity s ->
   WInv (setSize s n) /\ size (setSize s n) = n /\ capacity (setSize s n) = capacity s /\ isSmall (setSize s n) = isSmall s.
 Proof. destruct s as [c z]; unfold WInv, setSize, size, capacity, isSmall; cbn [capa_ size_]. bcase; intros; cbn [negb andb capa_ size_] in *; lia. Qed.
 
+End W.
+
+Section G.
+Variable M : Z.
+Variable wrap : Z -> Z.
+Hypothesis wrap_id : forall x, 0 <= x <= M -> wrap x = x.
 (* growth policy *)
 Lemma safe_next_spec oldCapa newSize :
   0 <= oldCapa <= M -> 0 <= newSize ->
-  match safe_next oldCapa newSize false with
+  match safe_next M wrap oldCapa newSize false with
   | None => M < newSize
   | Some c => newSize <= c <= M /\ c = Z.min (Z.max ((3 * oldCapa + 1) / 2) newSize) M
   end.
@@ -109,9 +115,10 @@ Proof.
   - rewrite (wrap_id c Hc). unfold c in *. lia.
 Qed.
 
-Lemma safe_next_exact n : 0 <= n <= M -> safe_next 0 n true = Some n.
+Lemma safe_next_exact n : 0 <= n <= M -> safe_next M wrap 0 n true = Some n.
 Proof. intros H. unfold safe_next. rewrite wrap_id by assumption. reflexivity. Qed.
 
 Lemma exc_check_spec c m : exc_check c m = if m <? c then None else Some tt.
 Proof. reflexivity. Qed.
-End W.
+End G.
+
